@@ -320,7 +320,45 @@ def r2_validation(repo, rep):
            and re.search(r"(\.geo|\['geo'\])$", tgt_text(n)) and re.search(r"astype\(('str'|str)\)", norm(n.ast.value))]
   if not canon and any(isinstance(c_, ast.Call) and isinstance(c_.func, ast.Attribute) and c_.func.attr in ('astype', 'map', 'apply') and re.search(r"\bstr\b", norm(c_))
                        for c_ in ast.walk(f.node)):
-    rep.undecided('R2/canonical-ids', 'geo IDs are strings', 'a conversion to str exists, but not as an assignment to the geo column in the recognised form', f.loc())
+    # value form: no column store, the conversion sits in the expression that becomes the stored index.  The uniqueness
+    # test must then run on converted values as well: decide by the (closed) term its subject denotes.
+    def str_conv(e_):
+      for c_ in ast.walk(e_):
+        if isinstance(c_, ast.Call) and isinstance(c_.func, ast.Attribute) and c_.func.attr in ('astype', 'map', 'apply') \
+            and any(norm(a_) in ('str', "'str'", "'string'", 'pd.StringDtype()') for a_ in list(c_.args) + [k.value for k in c_.keywords]):
+          return True
+        if isinstance(c_, ast.Call) and isinstance(c_.func, ast.Name) and c_.func.id == 'str':
+          return True
+      return False
+    stored_conv = None
+    for n_ in g.nodes:
+      if n_.kind == 'stmt' and isinstance(n_.ast, ast.Assign) and any(isinstance(t_, ast.Attribute) and t_.attr == 'index' for t_ in n_.ast.targets):
+        stored_conv = stored_conv or (n_ if str_conv(rd.expand(n_, n_.ast.value, keep=(dfp,))[0]) else None)
+      if n_.kind == 'stmt':
+        for c_ in au.calls_in(n_.ast):
+          if isinstance(c_.func, ast.Attribute) and c_.func.attr in ('set_index', 'set_axis', 'reindex') and c_.args and str_conv(rd.expand(n_, c_.args[0], keep=(dfp,))[0]):
+            stored_conv = stored_conv or n_
+    decided = False
+    for n0, lab in classes.get('duplicate-ids', []):
+      gx = rd.expand(n0, n0.expr, keep=(dfp,))[0]
+      subjects = [c_.func.value for c_ in ast.walk(gx) if isinstance(c_, ast.Call) and isinstance(c_.func, ast.Attribute) and c_.func.attr in ('duplicated', 'nunique', 'value_counts')]
+      subjects += [a_.value for a_ in ast.walk(gx) if isinstance(a_, ast.Attribute) and a_.attr == 'is_unique']
+      if not subjects or stored_conv is None:
+        continue
+      decided = True
+      for sx in subjects:
+        conv = str_conv(sx)
+        closed = not au.aliens(sx, {dfp})
+        rep.check3(True if conv else (False if closed else None), 'R2/canonical-ids', 'duplicate detection runs on string IDs', f.qualname, norm(sx)[:120],
+                   'duplicate geo IDs are looked for in `%s`, the IDs as given, while the stored index is converted to str (`%s`): 1 and "1" pass as distinct and collapse afterwards'
+                   % (norm(sx)[:80], norm(stored_conv.ast)[:80]), f.loc(n0.expr), why_open='the subject of the uniqueness test reads names that are not resolved')
+    if not decided:
+      rep.undecided('R2/canonical-ids', 'geo IDs are strings', 'a conversion to str exists, but not as an assignment to the geo column in the recognised form', f.loc())
+  elif not canon and any(isinstance(c_, ast.Call) and isinstance(c_.func, ast.Attribute) and c_.func.attr in ('astype', 'map', 'apply') and re.search(r"\bstr\b", norm(c_))
+                         for c_ in ast.walk(f.module.tree)):
+    # absence must hold everywhere the conversion could live: a helper of the module (reached through a table of stages,
+    # a decorator, a callback) does convert to str
+    rep.undecided('R2/canonical-ids', 'geo IDs are strings', 'no conversion to str in the constructor itself, but a function of the module converts to str: how it is reached is not followed', f.loc())
   elif not canon:
     rep.violation('R2/canonical-ids', f.qualname, 'no astype(str) on the geo column',
                   'geo IDs are not converted to strings: IDs that differ only by type are treated as different geos', f.loc())
